@@ -301,6 +301,10 @@ def run_check(module, tier, seed, jobs, deadline_s):
     if capped:
         coverage['cap_hit'] = {'deadline_s': deadline_s,
                                'spaces_not_explored': capped}
+    from mc.lib import api
+    if api.SKIPPED:
+        coverage['exhaustive'] = False
+        coverage['skipped_because_internal_api_changed'] = list(api.SKIPPED)
     if module.LEVEL == 'model_checking':
         coverage['states'] = agg['states']
         coverage['transitions'] = agg['transitions']
